@@ -78,67 +78,71 @@ def run_rebuild(case):
     sbx = new_sandbox("rb")
     try:
         case = _subst(case, sbx)
-        tree, P, v = case["tree"], case["P"], case["version"]
-        single = bool(tree.get("single"))
-        # 1. original payload (only to create the metafile from), then removed
-        proot = alpha.materialize(tree, os.path.join(sbx, "orig"))
-        mdir = os.path.join(sbx, "metas")
-        os.makedirs(mdir)
-        mpath = os.path.join(mdir, "t.torrent")
-        st = build_metafile(case, proot, mpath)
+        P, v = case["P"], case["version"]
+        trees = [case["tree"]] + list(case.get("more_trees", []))
         rec = {"id": case["id"], "op": "rebuild", "clauses": case["clauses"], "version": v, "P": P,
                "status": "ok", "count": -1, "files": [], "written": [], "sources_unchanged": True,
-               "metas_unchanged": True, "outside_ops": [], "outside_changed": [], "denied": [], "runs": 1}
-        if st != "ok":
-            rec["status"] = "create:" + st
-            return rec
-        rm(os.path.join(sbx, "orig"))
+               "metas_unchanged": True, "outside_ops": [], "outside_changed": [], "denied": [], "runs": 1,
+               "present_after": 0, "ntorrents": len(trees)}
+        # 1. original payloads (only to create the metafiles from), then removed
+        mdir = os.path.join(sbx, "metas")
+        os.makedirs(mdir)
+        mpaths = []
+        for ti, tree in enumerate(trees):
+            proot = alpha.materialize(tree, os.path.join(sbx, "orig%d" % ti))
+            mpath = os.path.join(mdir, "t%d.torrent" % ti)
+            sub = {k: v2 for k, v2 in dict(case, tree=tree).items() if k != "meta_name" or (ti == 0 and v2 is not None)}
+            st = build_metafile(sub, proot, mpath)
+            if st != "ok":
+                rec["status"] = "create:" + st
+                return rec
+            mpaths.append(mpath)
+            rm(os.path.join(sbx, "orig%d" % ti))
         # 2. search directories with candidates in imposed order
         sdirs = [os.path.join(sbx, "search%d" % i) for i in range(case.get("nsearch", 1))]
         for d in sdirs:
             os.makedirs(d)
         cand_bytes = {}
-        for fi, f in enumerate(tree["files"]):
-            fname = (f.get("meta_path") or f["path"] or [case.get("meta_name", tree["name"])])[-1] if not single else case.get("meta_name", tree["name"])
-            if single:
-                fname = case.get("meta_name", tree["name"])
-                fname = os.path.basename(fname.rstrip("/")) or fname
-            for k, c in enumerate(f.get("cands", [])):
-                sd = sdirs[c.get("search", 0) % len(sdirs)]
-                sub = ["k%02d-f%d" % (k, fi)] + ["deep"] * c.get("depth", 0)
-                data = candidate_bytes(tree, f, c["cls"], k, P)
-                p = os.path.join(sd, *sub, fname)
-                write_file(p, data)
-                cand_bytes[(fi, k)] = data
+        names = []
+        for ti, tree in enumerate(trees):
+            single = bool(tree.get("single"))
+            name = (case.get("meta_name") if ti == 0 else None) or tree["name"]
+            names.append(name)
+            for fi, f in enumerate(tree["files"]):
+                if single:
+                    fname = os.path.basename(name.rstrip("/")) or name
+                else:
+                    fname = (f.get("meta_path") or f["path"])[-1]
+                for k, c in enumerate(f.get("cands", [])):
+                    sd = sdirs[c.get("search", 0) % len(sdirs)]
+                    sub = ["k%02d-t%d-f%d" % (k, ti, fi)] + ["deep"] * c.get("depth", 0)
+                    data = candidate_bytes(tree, f, c["cls"], k, P)
+                    write_file(os.path.join(sd, *sub, fname), data)
+                    cand_bytes[(ti, fi, k)] = data
         for u in range(case.get("unrelated", 1)):
             write_file(os.path.join(sdirs[0], "zz-unrelated", "other%d.bin" % u), content("unrelated/%d" % u, 1000 + u))
         # 3. destination pre-state
         dest = os.path.join(sbx, "dest")
         os.makedirs(dest)
-        name = case.get("meta_name", tree["name"])
 
-        def dest_path(f):
+        def dest_path(ti, f):
+            tree = trees[ti]
             comps = list(f.get("meta_path") or f["path"])
-            return os.path.join(dest, name, *comps) if not single else os.path.join(dest, name)
+            return os.path.join(dest, names[ti], *comps) if not tree.get("single") else os.path.join(dest, names[ti])
         pre = {}
-        for fi, f in enumerate(tree["files"]):
-            dp = f.get("dest_pre", "absent")
-            if dp == "absent" or case.get("hostile"):
-                continue
-            data = _orig(tree, f)
-            if dp == "correct":
-                b = data
-            elif dp == "wrong_full":
-                b = content("wrongfull/%d" % fi, len(data), 3)
-            elif dp == "shorter":
-                b = data[:len(data) // 2]
-            else:
-                b = b""
-            if dp == "unrelated":
-                write_file(os.path.join(dest, "unrelated-%d.txt" % fi), b"keep me")
-            else:
-                write_file(dest_path(f), b)
-                pre[fi] = b
+        for ti, tree in enumerate(trees):
+            for fi, f in enumerate(tree["files"]):
+                dp = f.get("dest_pre", "absent")
+                if dp == "absent" or case.get("hostile"):
+                    continue
+                data = _orig(tree, f)
+                if dp == "unrelated":
+                    write_file(os.path.join(dest, "unrelated-%d-%d.txt" % (ti, fi)), b"keep me")
+                    continue
+                b = {"correct": data, "wrong_full": content("wrongfull/%d/%d" % (ti, fi), len(data), 3),
+                     "shorter": data[:len(data) // 2]}.get(dp, b"")
+                write_file(dest_path(ti, f), b)
+                pre[(ti, fi)] = b
         os.makedirs(os.path.join(sbx, "abs"), exist_ok=True)
         before = snapshot(sbx)
         # 4. run
@@ -148,13 +152,13 @@ def run_rebuild(case):
                 from torrentfile.rebuild import Assembler
                 runs = 2 if case.get("repeat") else 1
                 rec["runs"] = runs
+                marg = [mdir] if len(trees) > 1 else [mpaths[0]]
                 for _ in range(runs):
                     if case.get("route") == "cli":
                         from torrentfile.cli import execute
-                        argv = ["rebuild", "-m", mpath, "-c"] + sdirs + ["-d", dest]
-                        rec["count"] = execute(argv)
+                        rec["count"] = execute(["rebuild", "-m"] + marg + ["-c"] + sdirs + ["-d", dest])
                     else:
-                        asm = Assembler([mpath], sdirs, dest)
+                        asm = Assembler(marg, sdirs, dest)
                         rec["count"] = asm.assemble_torrents()
         except SystemExit as ex:
             rec["status"] = "exit:%s" % ex.code
@@ -165,6 +169,7 @@ def run_rebuild(case):
         if not isinstance(rec["count"], int):
             rec["count"] = -1
         after = snapshot(sbx)
+
         # 5. abstraction
         def area(rel):
             top = rel.split(os.sep)[0]
@@ -180,52 +185,52 @@ def run_rebuild(case):
         rec["metas_unchanged"] = not any(area(r) == "M" for r in changed)
         rec["outside_changed"] = sorted(hexs(r) for r in changed if area(r) == "E")
         rec["denied"] = sorted(hexs(p) for p in log["denied"])
+        rdest = os.path.realpath(dest)
         for e in log["log"]:
             if e["kind"] == "denied":
                 continue
-            for p in (e["path"],):
-                ap = os.path.realpath(p)
-                if not (ap == os.path.realpath(dest) or ap.startswith(os.path.realpath(dest) + os.sep)):
-                    rec["outside_ops"].append({"kind": e["kind"], "path": hexs(os.path.relpath(ap, sbx))})
+            ap = os.path.realpath(e["path"])
+            if not (ap == rdest or ap.startswith(rdest + os.sep)):
+                rec["outside_ops"].append({"kind": e["kind"], "path": hexs(os.path.relpath(ap, sbx))})
         recorded = {}
-        for fi, f in enumerate(tree["files"]):
-            recorded[os.path.relpath(dest_path(f), sbx)] = fi
-        for fi, f in enumerate(tree["files"]):
-            dp = os.path.relpath(dest_path(f), sbx)
-            data = _orig(tree, f)
-            if case.get("hostile"):
-                state = "n/a"
-            elif dp not in after or after[dp][0] != "f":
-                state = "absent"
-            else:
-                with open(os.path.join(sbx, dp), "rb") as fh:
-                    b = fh.read()
-                if fi in pre and b == pre[fi]:
-                    state = "pre"
-                elif b == data:
-                    state = "intact"
+        nse = len(sdirs)
+        for ti, tree in enumerate(trees):
+            for fi, f in enumerate(tree["files"]):
+                recorded[os.path.relpath(dest_path(ti, f), sbx)] = (ti, fi)
+        for ti, tree in enumerate(trees):
+            for fi, f in enumerate(tree["files"]):
+                dp = os.path.relpath(dest_path(ti, f), sbx)
+                data = _orig(tree, f)
+                if case.get("hostile"):
+                    state = "n/a"
+                elif dp not in after or after[dp][0] != "f":
+                    state = "absent"
                 else:
-                    ks = [k for (i2, k), cb in cand_bytes.items() if i2 == fi and cb == b]
-                    state = "cand" if ks else "other"
-                    if ks:
-                        cls = f["cands"][ks[0]]["cls"]
-                        state = "cand:" + cls
-            # candidates in the order the tool enumerates them: search directory, then directory name
-            nse = len(sdirs)
-            order = sorted(range(len(f.get("cands", []))), key=lambda k: (f["cands"][k].get("search", 0) % nse, k))
-            rec["files"].append({"path": [hexs(c) for c in f["path"]], "length": f["size"],
-                                 "cands": [f["cands"][k]["cls"] for k in order],
-                                 "dest_pre": f.get("dest_pre", "absent") if not case.get("hostile") else "absent",
-                                 "pre_intact": fi in pre and pre[fi] == data, "after": state})
+                    with open(os.path.join(sbx, dp), "rb") as fh:
+                        b = fh.read()
+                    if (ti, fi) in pre and b == pre[(ti, fi)]:
+                        state = "pre"
+                    elif b == data:
+                        state = "intact"
+                    else:
+                        ks = [k for (t2, i2, k), cb in cand_bytes.items() if (t2, i2) == (ti, fi) and cb == b]
+                        state = "cand:" + f["cands"][ks[0]]["cls"] if ks else "other"
+                # candidates in the order the tool enumerates them: search directory, then directory name
+                order = sorted(range(len(f.get("cands", []))), key=lambda k: (f["cands"][k].get("search", 0) % nse, k))
+                rec["files"].append({"torrent": ti, "path": [hexs(c) for c in f["path"]], "length": f["size"],
+                                     "cands": [f["cands"][k]["cls"] for k in order],
+                                     "dest_pre": f.get("dest_pre", "absent") if not case.get("hostile") else "absent",
+                                     "pre_intact": (ti, fi) in pre and pre[(ti, fi)] == data, "after": state})
         for r in changed:
             if area(r) != "D" or r not in after or after[r][0] != "f":
                 continue
             with open(os.path.join(sbx, r), "rb") as fh:
                 b = fh.read()
-            fi = recorded.get(r, -1)
-            is_copy = fi >= 0 and any(cb == b for (i2, k), cb in cand_bytes.items() if i2 == fi)
-            rec["written"].append({"recorded": fi >= 0, "file": fi + 1, "copy_of_candidate": bool(is_copy),
-                                   "length_ok": fi >= 0 and len(b) == tree["files"][fi]["size"]})
+            key = recorded.get(r)
+            is_copy = key is not None and any(cb == b for (t2, i2, k), cb in cand_bytes.items() if (t2, i2) == key)
+            rec["written"].append({"recorded": key is not None, "file": (key[1] + 1) if key else 0,
+                                   "copy_of_candidate": bool(is_copy),
+                                   "length_ok": key is not None and len(b) == trees[key[0]]["files"][key[1]]["size"]})
         rec["present_after"] = sum(1 for x in rec["files"] if x["after"] not in ("absent", "n/a"))
         return rec
     finally:
